@@ -6,6 +6,7 @@
  RF-halfopen   [prev, next) discipline of struct zrng_s (cache hit test, range construction)
  RF2-rd        big-endian readers RDU32/RDI32/RDI64
  RF2-tzif      TZif record sizes used by zif_open (v1 block skip, v2/v1 data walk, header count fields)
+ RF-fixpoint   zif_utc_time returns t - x only for x = offs(t - x') with the iteration ending on x == x'; zif_local_time is t + offs(t)
  RF9-glue      dtz_forgetz / dtz_enrichz: direction of the zone call, sign of the difference, which sign sets .neg
 """
 from core import (AnalysisBroken, strip, kids, const_of, call_args, expr_text, walk, origins, switch_cases, guards_of,
@@ -253,11 +254,108 @@ def check(P, R, tier):
     # the probe index is returned only under the interval test
     check_find_trno_returns(ft, R)
     nh = tzrules.halfopen_ranges(P, R, "RF-halfopen")
-    R.floor("RF-halfopen", "comparisons against zrng_s bounds", nh, 5)
+    R.floor("RF-halfopen", "comparisons against zrng_s bounds", nh, 4)
     tzrules.byte_readers(P, R, "RF2-rd")
     check_tzif(P, R)
     check_glue(P, R)
     check_find_zrng(P, R)
+    check_fixpoint(P, R)
+    nv = tzrules.cache_validity(P, R, "RF7c-valid")
+    R.floor("RF7c-valid", "narrowing reads of the cache / whole-time-line ranges", nv, 2)
+
+
+def check_fixpoint(P, R):
+    """RF-fixpoint: a zone's offset is a function of the UTC instant.  zif_local_time may look it up at its argument (a UTC stamp);
+    zif_utc_time gets a local stamp and has to look the offset up at `t - offset`, i.e. solve x = offs(t - x): every value it returns
+    for a non-null zone is t - x with x the result of a look-up at t minus an earlier estimate, and it leaves the iteration only
+    when two successive estimates agree (or start to oscillate).  A look-up at the local stamp itself is off by the offset -- wrong
+    wherever a transition (a leap second for TAI / GPS) lies within that distance."""
+    rule = "RF-fixpoint"
+    tu = P.tu("tzraw.c")
+    fn = tu.func("zif_utc_time")
+    loc = tu.func("zif_local_time")
+    if fn is None or loc is None:
+        raise AnalysisBroken("zif_utc_time / zif_local_time vanished")
+    R.saw(fn)
+    R.saw(loc)
+    zp, tp = fn.params[0]["d"], fn.params[1]["d"]
+
+    def is_t(e):
+        e = strip(e)
+        return e is not None and e.get("k") == "DeclRefExpr" and e.get("d") == tp
+
+    def lookup_arg(call):
+        """the stamp an __offs call looks up: ('t', None) for t itself, ('t-', decl) for t - <variable>"""
+        a = strip(call_args(call)[1])
+        if is_t(a):
+            return ("t", None)
+        if a is not None and a.get("k") == "BinaryOperator" and a.get("op") == "-" and is_t(a["c"][0]):
+            v = strip(a["c"][1])
+            if v is not None and v.get("k") == "DeclRefExpr":
+                return ("t-", v["d"])
+        return ("?", None)
+    n = 0
+    for r in fn.walk():
+        if r.get("k") != "ReturnStmt" or not kids(r):
+            continue
+        rv = strip(kids(r)[0])
+        if is_t(rv):
+            # the null-zone exit: identity
+            gs = guards_of(fn, r)
+            continue
+        n += 1
+        site = "return `%s`" % expr_text(rv)[:50]
+        good = False
+        why = "it is not of the form t - offset"
+        if rv is not None and rv.get("k") == "BinaryOperator" and rv.get("op") == "-" and is_t(rv["c"][0]):
+            x = strip(rv["c"][1])
+            if x is not None and x.get("k") == "CallExpr" and x.get("callee") == "__offs":
+                kind, _ = lookup_arg(x)
+                why = "the offset is looked up at %s" % ("the local stamp itself" if kind == "t" else "an unrecognised stamp")
+            elif x is not None and x.get("k") == "DeclRefExpr":
+                # every definition of x is a look-up at t - <estimate>, inside a loop that ends when x equals that estimate
+                defs = [d_ for d_ in fn.walk() if d_.get("k") == "BinaryOperator" and d_.get("op") == "=" and strip(d_["c"][0]).get("d") == x["d"]]
+                inits = [v for v in fn.walk() if v.get("k") == "Var" and v.get("d") == x["d"] and kids(v)]
+                if defs and not inits and all(strip(d_["c"][1]).get("callee") == "__offs" and lookup_arg(strip(d_["c"][1]))[0] == "t-" for d_ in defs):
+                    est = {lookup_arg(strip(d_["c"][1]))[1] for d_ in defs}
+                    loops = [w for w in fn.walk() if w.get("k") in ("WhileStmt", "DoStmt", "ForStmt") and any(y is defs[0] for y in walk(w))]
+                    cmp_ok = False
+                    for w in loops:
+                        for c in walk(w["c"][0] if w["k"] == "WhileStmt" else w["c"][1]):
+                            if c.get("k") == "BinaryOperator" and c.get("op") in ("!=", "=="):
+                                ids = set()
+                                for side in c["c"]:
+                                    sd = strip(side)
+                                    if sd is not None and sd.get("k") == "BinaryOperator" and sd.get("op") == "=":
+                                        sd = strip(sd["c"][0])
+                                    if sd is not None and sd.get("k") == "DeclRefExpr":
+                                        ids.add(sd.get("d"))
+                                if x["d"] in ids and ids & est:
+                                    cmp_ok = True
+                    good = cmp_ok
+                    why = "the iteration does not end on two equal successive estimates" if not cmp_ok else ""
+                else:
+                    why = "the returned offset is not (only) the result of a look-up at t minus an estimate"
+        if good:
+            R.ob(rule, "zif_utc_time %s: the offset is the fixed point of x = offs(t - x)" % site, True)
+        else:
+            R.finding(rule, fn, site, "a local stamp is turned into UTC with an offset that was not looked up at the UTC instant: %s; within one "
+                      "offset of a transition (of a leap second for the TAI / GPS zones) the neighbouring range's offset is applied" % why, r)
+    R.floor(rule, "non-trivial returns of zif_utc_time", n, 1)
+    # the other direction looks up at its argument
+    zt = loc.params[1]["d"]
+    okl = False
+    for r in loc.walk():
+        if r.get("k") == "ReturnStmt" and kids(r):
+            rv = strip(kids(r)[0])
+            if rv is not None and rv.get("k") == "BinaryOperator" and rv.get("op") == "+":
+                a, b = strip(rv["c"][0]), strip(rv["c"][1])
+                if a is not None and a.get("d") == zt and b is not None and b.get("callee") == "__offs" and strip(call_args(b)[1]).get("d") == zt:
+                    okl = True
+    if okl:
+        R.ob(rule, "zif_local_time: t + offs(t)", True)
+    else:
+        R.finding(rule, loc, "return", "zif_local_time must return its UTC argument plus the offset looked up at that argument")
 
 
 def check_find_trno_returns(fn, R):
@@ -315,7 +413,12 @@ def check_find_zrng(P, R):
             r = strip(n["c"][1])
             if l is not None and l.get("k") == "MemberExpr" and l.get("n") in ("prev", "next", "offs") and r is not None \
                     and r.get("k") == "CallExpr":
-                facts.setdefault(l["n"], []).append((r.get("callee"), expr_text(call_args(r)[1]) if len(call_args(r)) > 1 else ""))
+                item = (r.get("callee"), expr_text(call_args(r)[1]) if len(call_args(r)) > 1 else "")
+                # the range before the first transition (index -1) ends where transition 0 begins: trans(-1 + 1) spelled trans(0)
+                if l["n"] == "next" and item == ("zif_trans", "0") and any(
+                        norm_cond(g["cond"], g["pol"]) == ("<", "trno", "0") for g in guards_of(fn, n) if "pol" in g):
+                    item = ("zif_trans", "(trno + 1)")
+                facts.setdefault(l["n"], []).append(item)
     want = {"prev": ("zif_trans", "trno"), "next": ("zif_trans", "(trno + 1)"), "offs": ("_zif_troffs", "res.trno")}
     for k, w in want.items():
         got = facts.get(k, [])
